@@ -59,6 +59,17 @@ Theorem C18_classic_base_override_commutes_partial :
   state_of_classic cont lines' s0 = Some (apply cont (single_base p v) s).
 Proof. exact (@classic_base_override_commutes). Qed.
 
+(* an override is addressed to ONE crop parameter file (exact equality with the base name of the file
+   read): every crop read from a file of another name — also one whose name merely starts with the
+   addressed name (PARAM.WR / PARAM.WRA) or the .yml twin — keeps its state *)
+Theorem C18_other_file_untouched : forall (T : Type) (NT : Num T) cont target (o : cropow T) file s,
+  target <> base_name file -> apply_to cont target o file s = s.
+Proof. exact (@other_file_untouched_lemma). Qed.
+
+Theorem C18_addressed_file : forall (T : Type) (NT : Num T) cont (o : cropow T) file s,
+  apply_to cont (base_name file) o file s = apply cont o s.
+Proof. exact (@addressed_file_lemma). Qed.
+
 (* validation precedes any assignment: an override set with one invalid entry changes nothing *)
 Theorem C18_invalid_rejected : forall (T : Type) (NT : Num T) cont (o : cropow T) s,
   valid o (NRKOM s) (NRENTW s) = false -> apply cont o s = s.
@@ -85,4 +96,6 @@ Print Assumptions C18_override_commutes.
 Print Assumptions C18_override_commutes_classic.
 Print Assumptions C18_classic_stage_override_commutes.
 Print Assumptions C18_classic_base_override_commutes_partial.
+Print Assumptions C18_other_file_untouched.
+Print Assumptions C18_addressed_file.
 Print Assumptions C18_invalid_rejected.
